@@ -29,6 +29,8 @@ pub trait Target: Sized {
     fn ser_schema<W: WriteNoStd>(&self, w: &mut W) -> ser::Result<Schema>;
     fn store(&self, p: &Path) -> ser::Result<()>;
     fn canon(&self, out: &mut Vec<u8>);
+    /// adjust the stream length to a boundary, if the target can (`Padded<..>` documents)
+    fn fit(&mut self, _modulus: usize, _delta: isize) {}
 }
 
 pub struct DocT<D: Doc>(pub D);
@@ -48,6 +50,9 @@ impl<D: Doc> Target for DocT<D> {
     }
     fn canon(&self, out: &mut Vec<u8>) {
         self.0.canon(out)
+    }
+    fn fit(&mut self, modulus: usize, delta: isize) {
+        self.0.fit_len(modulus, delta);
     }
 }
 
@@ -254,7 +259,10 @@ struct Prepared<T: Target> {
 fn prepare<T: Target>(seed: u64, vi: u64, tier: Tier) -> Option<Prepared<T>> {
     let size = size_for(seed, ID, T::NAME, vi, tier);
     let mut r = Rng::new(mix(seed, "c13value", fx(T::NAME), vi.wrapping_mul(31).wrapping_add(size as u64)));
-    let v = T::make(&mut r, size);
+    let mut v = T::make(&mut r, size);
+    if let Some((m, d)) = fit_for(vi) {
+        v.fit(m, d);
+    }
     let mut tmp: Vec<u8> = Vec::new();
     match catch(|| v.ser(&mut tmp)) {
         Ok(Ok(n)) if n == tmp.len() => {}
